@@ -765,7 +765,13 @@ func (st *ServerType) serversFromPairings(
 			if cpVals, ok := sblock.pile["tls.connection_policy"]; ok {
 				// tls connection policies
 				for _, cpVal := range cpVals {
-					cp := cpVal.Value.(*caddytls.ConnectionPolicy)
+					// the policy in the pile is shared by all the servers this
+					// site block is paired with (a block whose keys use different
+					// ports); work on a copy, otherwise the matcher and SNI
+					// settings made here for one server would overwrite those
+					// made for another
+					cpCopy := *cpVal.Value.(*caddytls.ConnectionPolicy)
+					cp := &cpCopy
 
 					// make sure the policy covers all hostnames from the block
 					for _, h := range hosts {
